@@ -19,6 +19,8 @@ import IocProofs.Lemmas.OrderSupply
 import IocProofs.Lemmas.SemSupply
 import IocProofs.Lemmas.SemPrepare
 import IocProofs.Lemmas.SemProcessors
+import IocProofs.Lemmas.SemAppRun
+import IocProofs.Lemmas.SemSmall
 namespace Ioc.C12
 open Ioc Ioc.Order
 
@@ -718,5 +720,15 @@ theorem C12_code_default_processors (c n : Go.Val) (w : Option Go.Val) :
   pp_default_sem c n w
 
 end processors
+
+/-- every participant appears ONCE: registering the same object again changes nothing (`C01_code_RegisterSingleton`), and
+    GetSingletonNames — the list PrepareComponents walks — has one entry per stored name (`C10_code_registry_readers`) -/
+theorem C12_code_registered_once (nameOf : Nat → String) (i : Nat) (w : Sem.CMap) :
+    Go.run (Sem.rsPrims nameOf) Progs.sreg_RegisterSingleton [.ref i 0] w =
+      (match Sem.cmLoad w (nameOf i) with
+       | none => some (.tuple [], Sem.cmStore (nameOf i) i w)
+       | some j => if j = i then some (.tuple [], w) else none) ∧
+    Go.run Sem.srPrims Progs.sreg_GetSingletonNames [] w = some (Sem.strsNil (w.map (·.1)), w) :=
+  ⟨Sem.registerSingleton_sem nameOf i w, Sem.sregNames_sem w⟩
 
 end Ioc.C12
